@@ -63,6 +63,7 @@ structure WFrame (s s' : St) : Prop where
   shape : shape s'.outq = shape s.outq
   blks : blks s'.outq = blks s.outq
   len : s'.outq.length = s.outq.length
+  headFin : ∀ e rest, s.outq = e :: rest → e.finished = true → ∃ e' rest', s'.outq = e' :: rest' ∧ e'.finished = true
 
 theorem shape_set {q : List Entry} {i : Nat} {e e' : Entry} (hi : q[i]? = some e) (hc : e'.closed = e.closed) (hd : e'.data = e.data) :
     shape (q.set i e') = shape q := map_set_same _ hi (by simp [hc, hd])
@@ -75,15 +76,24 @@ theorem WFrame_set {s : St} {i : Nat} {e e' : Entry} (t : St) (hi : s.outq[i]? =
     (h1 : t.cfg = s.cfg) (h2 : t.seq = s.seq) (h3 : t.hdrPos = s.hdrPos) (h4 : t.tailPos = s.tailPos) (h5 : t.thr = s.thr)
     (h6 : t.readPos = s.readPos) (h7 : t.index = s.index) (h8 : t.mpc = s.mpc) (h9 : t.inp = s.inp) (h10 : t.cap = s.cap)
     (h11 : t.act = s.act) (h12 : t.pending = s.pending) (h13 : t.out = s.out) (h14 : t.done = s.done) (h15 : t.consumed = s.consumed)
-    (h16 : t.flushPts = s.flushPts) (h17 : t.nblk = s.nblk) (h18 : t.lastRet = s.lastRet) : WFrame s t :=
+    (h16 : t.flushPts = s.flushPts) (h17 : t.nblk = s.nblk) (h18 : t.lastRet = s.lastRet)
+    (hf : e.finished = true → e'.finished = true) : WFrame s t :=
   ⟨h1, h2, h3, h4, h5, h6, h7, h8, h9, h10, h11, h12, h13, h14, h15, h16, h17, h18,
    by rw [hq]; exact shape_set hi hc hd,
    by rw [hq]; exact blks_set hi (by simp [Entry.blk, ho, hch, hd]),
-   by rw [hq]; simp⟩
+   by rw [hq]; simp,
+   by
+    intro e0 rest h0 hfin
+    rw [hq, h0]
+    cases i with
+    | zero =>
+      rw [h0] at hi; simp at hi; subst hi
+      exact ⟨e', rest, by simp, hf hfin⟩
+    | succ j => exact ⟨e0, rest.set j e', by simp, hfin⟩⟩
 
 
 macro "wframe" hi:ident : tactic =>
-  `(tactic| exact WFrame_set _ $hi rfl rfl rfl rfl rfl rfl rfl rfl rfl rfl rfl rfl rfl rfl rfl rfl rfl rfl rfl rfl rfl rfl rfl)
+  `(tactic| exact WFrame_set _ $hi rfl rfl rfl rfl rfl rfl rfl rfl rfl rfl rfl rfl rfl rfl rfl rfl rfl rfl rfl rfl rfl rfl rfl (by simp <;> intro h <;> simp [h]))
 
 theorem wTop_frame {s s' : St} {i : Nat} (hs : wTop s i = some s') : WFrame s s' := by
   unfold wTop at hs
@@ -167,7 +177,7 @@ theorem wSpurious_frame {s s' : St} {i : Nat} (hs : wSpurious s i = some s') : W
 theorem wExitIdle_frame {s s' : St} (hs : wExitIdle s = some s') : WFrame s s' := by
   unfold wExitIdle at hs
   split at hs
-  · cases hs; exact ⟨rfl, rfl, rfl, rfl, rfl, rfl, rfl, rfl, rfl, rfl, rfl, rfl, rfl, rfl, rfl, rfl, rfl, rfl, rfl, rfl, rfl⟩
+  · cases hs; exact ⟨rfl, rfl, rfl, rfl, rfl, rfl, rfl, rfl, rfl, rfl, rfl, rfl, rfl, rfl, rfl, rfl, rfl, rfl, rfl, rfl, rfl, fun e rest h0 hf => ⟨e, rest, h0, hf⟩⟩
   · cases hs
 
 theorem mExitOne_frame {s s' : St} {i : Nat} (hs : mExitOne s i = some s') : WFrame s s' := by
@@ -184,7 +194,7 @@ theorem mExitOne_frame {s s' : St} {i : Nat} (hs : mExitOne s i = some s') : WFr
 theorem mExitIdle_frame {s s' : St} (hs : mExitIdle s = some s') : WFrame s s' := by
   unfold mExitIdle at hs
   split at hs
-  · cases hs; exact ⟨rfl, rfl, rfl, rfl, rfl, rfl, rfl, rfl, rfl, rfl, rfl, rfl, rfl, rfl, rfl, rfl, rfl, rfl, rfl, rfl, rfl⟩
+  · cases hs; exact ⟨rfl, rfl, rfl, rfl, rfl, rfl, rfl, rfl, rfl, rfl, rfl, rfl, rfl, rfl, rfl, rfl, rfl, rfl, rfl, rfl, rfl, fun e rest h0 hf => ⟨e, rest, h0, hf⟩⟩
   · cases hs
 
 /-- Frame of `ret`: the queue keeps its shape (threads_stop only touches the workers), `mpc` becomes `out` or `failed`. -/
@@ -212,6 +222,14 @@ theorem ret_busy (s : St) (r : Ret) : busy (ret s r).outq = busy s.outq := by
   unfold ret; split
   · rfl
   · simp [stopAll, busy_mapWorkers]
+
+theorem ret_headFin (s : St) (r : Ret) : ∀ e rest, s.outq = e :: rest → e.finished = true →
+    ∃ e' rest', (ret s r).outq = e' :: rest' ∧ e'.finished = true := by
+  intro e rest h0 hf
+  unfold ret; split
+  · exact ⟨e, rest, h0, hf⟩
+  · simp only [stopAll, mapWorkers, h0, List.map_cons]
+    exact ⟨_, _, rfl, hf⟩
 
 theorem ret_mpc (s : St) (r : Ret) : (ret s r).mpc = .out ∨ (ret s r).mpc = .failed := by
   unfold ret; split
